@@ -1172,6 +1172,9 @@ class Logic:
                 parts.append(ast.Compare(left=left, ops=[op], comparators=[r]))
                 left = r
             return self.dnf(ast.BoolOp(op=ast.And(), values=parts), fr, pol, depth)
+        cd = self._count_dnf(e, fr, pol)
+        if cd is not None:
+            return cd
         shape = self._emptiness_shape(e, fr, pol)
         if shape is not None:
             r = self._empty_comp_dnf(shape[0], fr, shape[1], depth)
@@ -1207,6 +1210,68 @@ class Logic:
             if len(inner) > 1:
                 return inner
         return [e]
+
+    def _count_dnf(self, e, fr, pol):
+        """comparisons of a count term with the size of its iterable or with 0/1 are quantified
+        statements:  count{I: P} == len(I)  <=>  forall x in I: P ;  count < len(I)  <=>  exists not P ;
+        count == 0  <=>  forall not P ;  count >= 1  <=>  exists P"""
+        if not (isinstance(e, ast.Compare) and len(e.ops) == 1):
+            return None
+        op = _CMP[type(e.ops[0])]
+        if op not in ('==', '!=', '<', '<=', '>', '>='):
+            return None
+        try:
+            a = affine(self.canon, e.left, fr) - affine(self.canon, e.comparators[0], fr)
+        except RecursionError:
+            return None
+        keys = [k for k in a.terms if k in COUNT_INFO]
+        if len(keys) != 1 or abs(a.terms[keys[0]]) != 1:
+            return None
+        k = keys[0]
+        it, lits = COUNT_INFO[k]
+        if a.terms[k] == -1:            # make the count positive:  (c + rest) op' 0
+            a = a.scale(-1)
+            op = {'<': '>', '<=': '>=', '>': '<', '>=': '<='}.get(op, op)
+        rest = a - Affine({k: 1})        # c + rest  op  0
+        n = 'len(%s)' % it
+        if rest == Affine({n: -1}):
+            base = 'n'                   # c - n op 0
+        elif rest.is_const():
+            base = rest.const            # c + const op 0
+        else:
+            return None
+        if not pol:
+            op = {'==': '!=', '!=': '==', '<': '>=', '<=': '>', '>': '<=', '>=': '<'}[op]
+        # decide which statement about P the comparison makes
+        if base == 'n':
+            verdict = {'==': 'all', '>=': 'all', '!=': 'some-not', '<': 'some-not', '<=': 'true', '>': 'false'}[op]
+        else:
+            c0 = -base                   # c op c0
+            verdict = None
+            if (op, c0) in (('==', 0), ('<=', 0), ('<', 1)):
+                verdict = 'none'
+            elif (op, c0) in (('!=', 0), ('>', 0), ('>=', 1)):
+                verdict = 'some'
+        if verdict is None:
+            return None
+        from .skel import quantified
+        if verdict == 'true':
+            return [[]]
+        if verdict == 'false':
+            return []
+        if verdict == 'all':
+            return [[quantified('forall', ['$1'], it, l) for l in lits]]
+        if verdict == 'none':            # forall x: not (P1 & P2)  -- only a single literal splits
+            if len(lits) == 1:
+                return [[quantified('forall', ['$1'], it, lits[0].neg())]]
+            return None
+        if verdict == 'some':
+            if len(lits) == 1:
+                return [[quantified('exists', ['$1'], it, lits[0])]]
+            return [[Lit('exists $1 in %s: %s' % (it, ' & '.join(sorted(map(repr, lits)))), True)]]
+        if verdict == 'some-not':
+            return [[quantified('exists', ['$1'], it, l.neg())] for l in lits]
+        return None
 
     def _emptiness_shape(self, e, fr, pol):
         """(container expr, asserted-empty?) when `e is pol` states (non-)emptiness of a container"""
@@ -1432,6 +1497,78 @@ class Affine:
         return s[2:] if s.startswith('+ ') else s
 
 
+COUNT_INFO = {}     # key -> (iterable string, [literals over $1])
+
+
+def _resolve_local(e, fr, want=(ast.Call,)):
+    """the expression a single-assignment local names (for looking through `counts = Counter(...)`)"""
+    if isinstance(e, ast.Name) and fr is not None and e.id not in fr.binding:
+        from .paths import assigned_names
+        defs = assigned_names(fr.func).get(e.id, [])
+        if len(defs) == 1 and isinstance(defs[0], ast.Assign) and len(defs[0].targets) == 1 and isinstance(
+                defs[0].targets[0], ast.Name) and isinstance(defs[0].value, want):
+            return defs[0].value
+    return e
+
+
+def count_term(canon, comp, cond, fr):
+    """Affine term  count{I: P}  = number of elements of the comprehension's iterable that satisfy
+    `cond` (and the comprehension's own filters).  None when not expressible."""
+    if not (isinstance(comp, (ast.ListComp, ast.GeneratorExp, ast.SetComp)) and len(comp.generators) == 1):
+        return None
+    g = comp.generators[0]
+    if not isinstance(g.target, ast.Name):
+        return None
+    conds = list(g.ifs) + ([cond] if cond is not None else [])
+    lg = Logic(canon)
+    lits = []
+    for c in conds:
+        alts = lg.dnf(c, fr, True, 1)
+        if len(alts) != 1:
+            return None
+        lits += alts[0]
+    var = canon.c(g.target, fr)
+    ren = []
+    for l in lits:
+        atom = re.sub(r'(?<![\w#.$])%s(?![\w])' % re.escape(var), '$1', l.atom)
+        ren.append(Lit(atom, l.pol))
+    it = canon.c(g.iter, fr)
+    key = 'count{%s: %s}' % (it, ' & '.join(sorted(map(repr, ren))) or 'all')
+    COUNT_INFO[key] = (it, ren)
+    return Affine({key: 1})
+
+
+def _count_of(canon, e, fr):
+    """count term for the counting idioms: Counter(E for x in I)[K], sum([1 if C else 0 ...]),
+    sum(1 for x in I if C), sum(C for x in I), len([x for x in I if C])"""
+    if isinstance(e, ast.Subscript) and not isinstance(e.slice, ast.Slice):
+        base = _resolve_local(e.value, fr)
+        if isinstance(base, ast.Call) and isinstance(base.func, (ast.Name, ast.Attribute)) and (
+                getattr(base.func, 'id', None) == 'Counter' or getattr(base.func, 'attr', None) == 'Counter') \
+                and len(base.args) == 1 and isinstance(base.args[0], (ast.GeneratorExp, ast.ListComp)):
+            comp = base.args[0]
+            cond = ast.Compare(left=comp.elt, ops=[ast.Eq()], comparators=[e.slice])
+            return count_term(canon, comp, cond, fr)
+    if isinstance(e, ast.Call) and isinstance(e.func, ast.Name) and len(e.args) == 1 and not e.keywords:
+        comp = e.args[0]
+        if not isinstance(comp, (ast.GeneratorExp, ast.ListComp)) or len(comp.generators) != 1:
+            return None
+        g = comp.generators[0]
+        if e.func.id == 'sum':
+            if isinstance(comp.elt, ast.IfExp) and isinstance(comp.elt.body, ast.Constant) and comp.elt.body.value == 1 \
+                    and isinstance(comp.elt.orelse, ast.Constant) and comp.elt.orelse.value == 0:
+                return count_term(canon, comp, comp.elt.test, fr)
+            if isinstance(comp.elt, ast.Constant) and comp.elt.value == 1 and g.ifs:
+                return count_term(canon, comp, None, fr)
+            if isinstance(comp.elt, (ast.Compare, ast.BoolOp)) or (
+                    isinstance(comp.elt, ast.UnaryOp) and isinstance(comp.elt.op, ast.Not)):
+                return count_term(canon, comp, comp.elt, fr)
+        if e.func.id == 'len' and g.ifs and isinstance(comp.elt, ast.Name) and isinstance(g.target, ast.Name) \
+                and comp.elt.id == g.target.id:
+            return count_term(canon, comp, None, fr)
+    return None
+
+
 def affine(canon, e, fr, env=None, _d=0):
     """Affine form of expression e (copy-propagating frame aliases and `env`,
     a dict name -> Affine for path-sensitive locals)."""
@@ -1441,6 +1578,10 @@ def affine(canon, e, fr, env=None, _d=0):
     v = _num(e)
     if v is not None:
         return Affine({}, Fraction(v).limit_denominator(10**9))
+    if isinstance(e, (ast.Subscript, ast.Call)):
+        ct = _count_of(canon, e, fr)
+        if ct is not None:
+            return ct
     if isinstance(e, ast.Name):
         if env is not None and e.id in env:
             return env[e.id]
